@@ -246,6 +246,11 @@ func (torrent *Torrent) MetadataComplete() error {
 		}
 	}
 
+	if int64(len(hashes)) !=
+		(length+int64(info.PieceLength)-1)/int64(info.PieceLength) {
+		return errors.New("wrong number of piece hashes")
+	}
+
 	chunks := (length + int64(config.ChunkSize) - 1) /
 		int64(config.ChunkSize)
 	if chunks != int64(uint32(chunks)) || chunks != int64(int(chunks)) {
